@@ -2,6 +2,7 @@
 
 Used by C01, C09, C11 (DESIGN.md section 4)."""
 from .common import *
+from ..program import is_noise
 
 SCHEDULE = EXEC + "::schedule"
 STORE = "rt::object::Store"
@@ -523,6 +524,42 @@ PRE_READ_OK = {
 }
 
 
+BRANCH_COND_ARG = {"rt::object::Ref::<T>::branch_acquire": 1, "rt::object::Ref::<T>::branch_disable": 2}
+
+
+def _feeds_only_blocking_condition(prog, ea, root):
+    """Every pre-branch state read of the operation `root` is a bool predicate whose result flows only into the blocking
+    condition of the operation's own branching call (whether the predicate is a named helper, or an `rt::execution` closure
+    written in place): between the read and the branching call nothing but such predicates (and tracing) is called."""
+    body = prog.body_of(root)
+    key = prog.insts[root].key
+    branch = [(b, t, BRANCH_COND_ARG[prog.callee_key(c)]) for (b, t, c) in prog.sites(root) if prog.callee_key(c) in BRANCH_COND_ARG]
+    if len(branch) != 1:
+        return False
+    bb, bt, ai = branch[0]
+    IN, OUT = ea.block_out(root)
+    pre = [b for b in ea.sites_may(root, "state_access") if b != bb and (IN.get(b) is None or "schedule" not in IN.get(b))]
+    if not pre:
+        return False
+    feeding, _ = feeding_calls(body, bt["args"][ai])
+    dom = body.dominators()
+    for b in pre:
+        t = body.term(b)
+        if t["k"] != "call" or body.locals[t["dest"]["l"]]["ty"] != "bool" or t["dest"]["p"]:
+            return False
+        if callee_path(t) not in feeding or bb not in body.reachable(b):
+            return False
+    # nothing else happens before the branching call
+    region = set()
+    for b in pre:
+        region |= {x for x in body.reachable(b) if bb in body.reachable(x) and x != bb}
+    for x in region:
+        t = body.term(x)
+        if t["k"] == "call" and x not in pre and not is_noise(t) and not t.get("exp"):
+            return False
+    return True
+
+
 def V2(ctx, subset=None):
     """The object state an operation returns or mutates is read after its branch point; pre-branch reads are allowed
     only for the blocking condition of the listed operations."""
@@ -565,6 +602,8 @@ def V2(ctx, subset=None):
                     inner = [c_ for c_ in chain if c_ in okops]
                     if inner:
                         excused = True
+            if not excused and len(chain) >= 1 and _feeds_only_blocking_condition(prog, ea, root):
+                excused = True
             if not excused:
                 real.append((v, chain))
         if real:
